@@ -170,13 +170,14 @@ def run_harness(module, program, out_path, pkg="vmh", release=False, timeout=900
         if rc == 0:
             all_events += events
             break
-        if (rc > 0 and rc != 101) or ctx is None or not one_event_per_line:
+        if (rc > 0 and rc not in (101, 103)) or ctx is None or not one_event_per_line:
             raise ToolError("harness failed rc=%d: %s" % (rc, err[-2000:]))
         if rc == 101 and "harness:" in err:
             raise ToolError("harness failed rc=%d: %s" % (rc, err[-2000:]))
         # killed by a signal (or aborted by a panic that escaped: rc 101) while executing program line start + len(events)
+        hang = (rc == 103)
         rc = -rc if rc < 0 else 6
-        crashes += 1
+        crashes += 9 if hang else 1       # a hang costs the watchdog limit: stop after three of them
         bad = start + len(events)
         if bad >= len(program):
             raise ToolError("harness died after its last operation (rc=%d)" % rc)
@@ -184,11 +185,13 @@ def run_harness(module, program, out_path, pkg="vmh", release=False, timeout=900
         while j > start and program[j].get("op") != "init":
             j -= 1
         hist = program[j:bad + 1]
-        log("[harness] process died (signal %d) in %s %s" % (rc, program[bad].get("op"), json.dumps(program[bad].get("a"))[:200]))
+        what = "did not return (watchdog)" if hang else "died (signal %d)" % rc
+        log("[harness] process %s in %s %s" % (what, program[bad].get("op"), json.dumps(program[bad].get("a"))[:200]))
         ctx.mismatch({"module": module, "tag": "crash", "op": program[bad].get("op"), "a": program[bad].get("a"),
-                      "r": {"k": "signal", "sig": rc, "msg": "the process running the library died (signal %d)" % rc}},
+                      "r": ({"k": "hang", "msg": "the call did not return within the watchdog limit"} if hang else
+                            {"k": "signal", "sig": rc, "msg": "the process running the library died (signal %d)" % rc})},
                      {"module": module, "pkg": pkg, "program": hist, "expected": "the call returns (a value or an error)",
-                      "observed": "process killed by signal %d" % rc})
+                      "observed": "the call never returned" if hang else "process killed by signal %d" % rc})
         # keep the events of complete histories, drop the crashed history, resume with the next history
         has_init = any(l.get("op") == "init" for l in program)
         if has_init:
@@ -226,7 +229,37 @@ _RE_STATES = re.compile(r"^(\d+) states generated, (\d+) distinct states found")
 _RE_DEPTH = re.compile(r"^The depth of the complete state graph search is (\d+)")
 
 
-def tlc(tla, cfg, name, workers=8, timeout=900, env=None, extra=(), heap=None, dfs=False):
+_RE_GLITCH = re.compile(r'Attempted to select nonexistent field "(\w+)" from the record\s*\n\[([^\n]*)')
+
+
+def _tlc_glitch(out_path):
+    """TLC 1.8 with several workers has (rarely, under heavy machine load) reported 'Attempted to select nonexistent
+    field "count" from the record [addr |-> 4, count |-> 15, ...]' - a record that HAS the field: another worker was
+    normalising (sorting in place) the same RecordValue.  The message contradicts itself, so it cannot be an error of the
+    specification; such a run is repeated.  A genuine missing-field error prints a record without the field and is
+    not matched here."""
+    with open(out_path, errors="replace") as f:
+        txt = f.read(400000)
+    for m in _RE_GLITCH.finditer(txt):
+        if re.search(r'(^|[\[,] *)%s \|->' % re.escape(m.group(1)), m.group(2)):
+            return m.group(0).replace("\n", " ")[:200]
+    return None
+
+
+def tlc(tla, cfg, name, workers=8, timeout=900, **kw):
+    r = _tlc_once(tla, cfg, name, workers=workers, timeout=timeout, **kw)
+    for w in (workers, 1):
+        if r.rc == 0 or workers == 1:
+            break
+        g = _tlc_glitch(r.out_path)
+        if not g:
+            break
+        log("[tlc] %s: TLC-internal race (%s); repeating with %d worker(s)" % (os.path.basename(cfg), g, w))
+        r = _tlc_once(tla, cfg, name, workers=w, timeout=timeout * (1 if w > 1 else 4), **kw)
+    return r
+
+
+def _tlc_once(tla, cfg, name, workers=8, timeout=900, env=None, extra=(), heap=None, dfs=False):
     """Run TLC; stdout goes to work/<name>.out. Raises ToolError on tool failures
     (parse errors, timeouts); invariant violations are reported in the result."""
     os.makedirs(WORK, exist_ok=True)
@@ -323,8 +356,41 @@ def parse_tagged(out_path, tag):
                         fields.append(part.strip('"'))
                     else:
                         fields.append(int(part))
-            res.append(tuple(fields) + (json.loads(js),))
+            res.append(tuple(fields) + (json.loads(js, object_pairs_hook=_nodup),))
     return res
+
+
+class GlitchError(Exception):
+    pass
+
+
+def _nodup(pairs):
+    d = dict(pairs)
+    if len(d) != len(pairs):
+        raise GlitchError("duplicate key in a record printed by TLC: %s" % [k for k, _ in pairs])
+    return d
+
+
+def gen_run(tla, cfg, name, workers=8, timeout=1800):
+    """Run a Gen configuration and parse its INIT / EDGE lines.  Once, under heavy machine load, a multi-worker
+    TLC run printed an action record with a field missing (cf. the multi-worker serialisation problem noted in
+    DESIGN.md section 9); a generated test is only usable if every action of one name carries the same argument
+    names, so that is checked here and the run is repeated single-worker (deterministic) if it does not hold."""
+    for attempt, w in enumerate((workers, 1)):
+        r = tlc_must_pass(tla, cfg, name, workers=w, timeout=timeout if attempt == 0 else timeout * 4)
+        try:
+            inits = parse_tagged(r.out_path, "INIT")
+            edges = parse_tagged(r.out_path, "EDGE")
+            shape = {}
+            for (o,) in edges:
+                a = o["act"]
+                k = frozenset(a["a"].keys()) if isinstance(a.get("a"), dict) else None
+                if shape.setdefault(a["op"], k) != k:
+                    raise GlitchError("action %s printed with argument names %s and %s" % (a["op"], sorted(shape[a["op"]]), sorted(k)))
+            return r, inits, edges
+        except GlitchError as e:
+            log("[gen] %s: inconsistent TLC output (%s)%s" % (os.path.basename(cfg), e, "; repeating single-worker" if attempt == 0 else ""))
+    raise ToolError("TLC output of %s is inconsistent even single-worker" % cfg)
 
 
 # --------------------------------------------------------------------------
